@@ -38,6 +38,17 @@ impl CosCtx {
 }
 
 fn build(rules: &[Value], net: &[String], resources: &[Resource], opt: bool) -> Engine {
+    // another way to the same engine: the plain constructor over the list text (possible when no list carries a
+    // permission); taken for the optimised variant of every case
+    if opt && rules.iter().all(|r| r["perm"].as_u64().unwrap_or(0) == 0) {
+        let mut lines: Vec<String> = rules.iter().map(|r| r["text"].as_str().unwrap().to_string()).collect();
+        lines.extend(net.iter().cloned());
+        let mut e = Engine::from_rules(&lines, ParseOptions::default());
+        for r in resources.iter().rev() {
+            let _ = e.add_resource(r.clone());
+        }
+        return e;
+    }
     let mut fs = FilterSet::new(true);
     for r in rules {
         let opts = ParseOptions { permissions: PermissionMask::from_bits(r["perm"].as_u64().unwrap_or(0) as u8), ..ParseOptions::default() };
